@@ -97,6 +97,18 @@ class BasicDSG(DSG):
             removed_edges |= derived_edges
             removed_nodes |= derived_nodes
 
+        # Components without any floating node (derivation cycles that nothing else derives) cannot be derived either
+        reachable_nodes = set(start_nodes)
+        queue = list(start_nodes)
+        while len(queue) > 0:
+            for edge in iter_out_edges(graph, queue.pop()):
+                if get_edge_type(edge) in {EdgeType.INCOMPATIBILITY, EdgeType.EXCLUDES}:
+                    continue
+                if edge[1] not in reachable_nodes and edge[1] not in removed_nodes:
+                    reachable_nodes.add(edge[1])
+                    queue.append(edge[1])
+        removed_nodes |= {node for node in graph.nodes if node not in reachable_nodes}
+
         if len(removed_edges) > 0 or len(removed_nodes) > 0:
             dsg = dsg.get_for_adjusted(removed_edges=removed_edges, removed_nodes=removed_nodes)
 
